@@ -4,8 +4,13 @@ import (
 	"context"
 	"fmt"
 	"testing"
+	"time"
 
 	"github.com/NethermindEth/juno/blockchain"
+	"github.com/NethermindEth/juno/core"
+	"github.com/NethermindEth/juno/core/felt"
+	"github.com/NethermindEth/juno/feed"
+	"github.com/NethermindEth/juno/utils/log"
 	"github.com/NethermindEth/juno/db"
 	"github.com/NethermindEth/juno/db/memory"
 	"github.com/NethermindEth/juno/pruner"
@@ -25,6 +30,88 @@ func prunedNode(d db.KeyValueStore, u *gen.Universe) *node.Node {
 	return node.New(false, d, u.Net,
 		blockchain.WithRunningEventFilterInitializer(pruner.InitializeRunningEventFilter),
 		blockchain.WithRetentionFloor(floor))
+}
+
+// servicePrune runs the real pruner.Pruner (as node.go wires it: one RetentionFloor shared with the Blockchain) on a store
+// whose k-th committed write fails, delivers one L1 head and waits for the service to report the prune or its failure.
+// ok=false when the L1 head does not lead to a prune attempt (nothing to check).
+func servicePrune(c *stats.Case, fs *fault.Store, u *gen.Universe, k int, l1 uint64, retained uint64, batch int) (*node.Node, bool) {
+	if h, err := core.GetChainHeight(fs); err != nil || l1 >= h {
+		return nil, false // an L1 head at or above the local head does not drive a prune
+	}
+	floor, err := pruner.NewRetentionFloor(fs)
+	if err != nil {
+		stats.HarnessError("retention floor: %v", err)
+	}
+	nd := node.New(false, fs, u.Net,
+		blockchain.WithRunningEventFilterInitializer(pruner.InitializeRunningEventFilter),
+		blockchain.WithRetentionFloor(floor))
+	l2f, l1f := feed.New[*core.Block](), feed.New[*core.L1Head]()
+	done := make(chan error, 4)
+	p := pruner.New(fs, floor, retained, l2f.Subscribe(), l1f.Subscribe(), log.NewNopZapLogger(),
+		pruner.WithTargetBatchByteSize(batch),
+		pruner.WithListener(&pruner.SelectiveListener{
+			OnPruneCb:      func(uint64, uint64, time.Duration) { done <- nil },
+			OnPruneErrorCb: func(err error) { done <- err },
+		}))
+	ctx, cancel := context.WithCancel(context.Background())
+	exited := make(chan struct{})
+	go func() { _ = p.Run(ctx); close(exited) }()
+	fs.Commits, fs.FailAt = 0, k
+	l1f.Send(&core.L1Head{BlockNumber: l1, BlockHash: new(felt.Felt), StateRoot: new(felt.Felt)})
+	var perr error
+	select {
+	case perr = <-done:
+	case <-time.After(60 * time.Second):
+		cancel()
+		stats.HarnessError("pruner service did not report within 60s")
+	}
+	cancel()
+	<-exited
+	fs.FailAt = 0
+	if perr == nil {
+		c.Violation("failed-commit-not-reported", "write %d failed (injected) during the service's prune but the pruner reported success", k)
+	}
+	c.Label("service-prune-failed-write")
+	return nd, true
+}
+
+// belowFloorNeverWrong: a block below the on-disk retention floor f may be reported as pruned, but an answer that is
+// given must be the right one (the in-memory retention floor must not lag behind what a failed prune already deleted).
+func belowFloorNeverWrong(c *stats.Case, where string, nd, twin *node.Node, u *gen.Universe, f uint64) {
+	for b := uint64(0); b < f; b++ {
+		sr, closer, err := nd.BC.StateAtBlockNumber(b)
+		if err != nil {
+			continue
+		}
+		tr, tcloser, terr := twin.BC.StateAtBlockNumber(b)
+		if terr != nil {
+			stats.HarnessError("twin state at %d: %v", b, terr)
+		}
+		for _, a := range u.AllAddrs() {
+			a := a
+			for _, key := range u.Keys {
+				key := key
+				got, err := sr.ContractStorage(&a, &key)
+				want, werr := tr.ContractStorage(&a, &key)
+				if err == nil && werr == nil && !got.Equal(&want) {
+					c.Violation("pruned-block-answered-wrongly", "%s: state at block %d (below the on-disk floor %d) is served, and storage %s[%s] = %s, the unpruned twin has %s", where, b, f, a.ShortString(), key.ShortString(), got.String(), want.String())
+				}
+			}
+			gn, err := sr.ContractNonce(&a)
+			wn, werr := tr.ContractNonce(&a)
+			if err == nil && werr == nil && !gn.Equal(&wn) {
+				c.Violation("pruned-block-answered-wrongly", "%s: state at block %d (below the on-disk floor %d): nonce of %s = %s, twin %s", where, b, f, a.ShortString(), gn.String(), wn.String())
+			}
+			gc, err := sr.ContractClassHash(&a)
+			wc, werr := tr.ContractClassHash(&a)
+			if err == nil && werr == nil && !gc.Equal(&wc) {
+				c.Violation("pruned-block-answered-wrongly", "%s: state at block %d (below the on-disk floor %d): class hash of %s = %s, twin %s", where, b, f, a.ShortString(), gc.String(), wc.String())
+			}
+		}
+		_ = closer()
+		_ = tcloser()
+	}
 }
 
 // idsFrom restricts the observation universe to blocks >= floor.
@@ -55,6 +142,7 @@ func TestPropPruneInterrupted(t *testing.T) {
 			end1 := uint64(rapid.IntRange(0, 8).Draw(rt, "end1"))
 			end2 := uint64(rapid.IntRange(int(end1)+1, n-1).Draw(rt, "end2"))
 			batch := rapid.SampledFrom([]int{1, 1, db.DefaultBatchSize}).Draw(rt, "batch")
+			retained := uint64(rapid.IntRange(0, max(0, min(3, n-2-int(end2)))).Draw(rt, "retained"))
 			c.Fp("n%d e1:%d e2:%d b%d %s", n, end1, end2, batch, ch.Blocks[n-1].B.Hash.String())
 			if end2-end1 > 10 {
 				c.Label("prune-advances-more-than-block-hash-lag")
@@ -166,6 +254,23 @@ func TestPropPruneInterrupted(t *testing.T) {
 					where := fmt.Sprintf("write %d of %d of PruneUpto(%d) failed", k, W, end2)
 					checkAgainstTwin(where, nd)
 					finish(where, nd)
+				}
+				{ // (c) failing write under the real pruner service, which shares its in-memory retention floor with the Blockchain
+					inner := build()
+					fs := fault.New(inner)
+					where := fmt.Sprintf("write %d of %d failed while the pruner service handled L1 head %d (retained %d)", k, W, end2+retained, retained)
+					nd, ok := servicePrune(c, fs, u, k, end2+retained, retained, batch)
+					if ok {
+						// the service raises its in-memory floor to the target before it writes: blocks below the target may be
+						// reported as pruned although still on disk, but whatever is answered must be right
+						ids := idsFrom(u, ch.Blocks, end2)
+						ids.MaxNumber = uint64(n - 1)
+						if d := node.Diff(nd.Observe(ids), twin.Observe(ids), 5); len(d) > 0 {
+							c.Violation("retained-block-damaged", "%s: blocks >= prune target %d differ from the unpruned twin:\n%v", where, end2, d)
+						}
+						belowFloorNeverWrong(c, where, nd, twin, u, end2)
+						finish(where, nd)
+					}
 				}
 			}
 			c.Sample(func() any {
